@@ -10,7 +10,7 @@ T0 = 273.15
 TCRIT_C = 647.096 - 273.15          # 373.946 degC, the closed upper end of the saturation line
 T13_C, T23_C, TMAX_C, TMIN_C = 350.0, 590.0, 800.0, 0.01
 PMAX = 100.0e6
-PMIN2 = 1.0                          # lowest steam pressure generated (Pa)
+PMIN2 = 1e-6                         # lowest steam pressure generated (Pa)
 DELTAS = (1e-9, 1e-6, 1e-3)
 
 # ---- tolerances, each with the value measured on the unchanged tree (see calibrate()) ----------
@@ -55,7 +55,7 @@ ASSUMPTIONS = [
     '1e-9 p, i.e. everywhere except at the critical point itself where dp/drho = 0 by definition (label mono-skipped)',
     'region 3 below the critical temperature is judged outside the two-phase dome only (liquid branch above, vapour branch '
     'below the IF97 saturation pressure)',
-    'steam pressures are generated from 1 Pa upwards; the region classifier is exercised for 0 < p <= 100 MPa',
+    'steam pressures are generated from 1e-6 Pa upwards (log-uniform part), where the high powers of the reduced pressure underflow; the region classifier is exercised for 0 < p <= 100 MPa',
     'a state within a relative 1e-9 of a region boundary may be classified to either side',
 ]
 
@@ -297,6 +297,22 @@ def edges():
     out = []
     sat_ts = around(TMIN_C, TMIN_C, TCRIT_C) + around(TCRIT_C, TMIN_C, TCRIT_C) + [373.946] + around(T13_C, TMIN_C, TCRIT_C) \
         + [26.85, 226.85, 326.85]
+    # the two quadratics of the saturation equations have leading coefficients that vanish inside the range (A(theta) = 0
+    # near 175.17 degC, E(beta) = 0 near 0.726 MPa): forms that divide by them, or cancel there, go wrong only within
+    # ~1e-5 of those states, which no grid or random draw reaches
+    import math
+    n4 = ref._N4
+    th0 = 0.5 * (-n4[1] + math.sqrt(n4[1] ** 2 - 4.0 * n4[2]))
+    T0 = 0.5 * ((th0 + n4[10]) - math.sqrt((th0 + n4[10]) ** 2 - 4.0 * (th0 * n4[10] + n4[9])))        # theta(T0) = th0
+    be0 = 0.5 * (-n4[3] - math.sqrt(n4[3] ** 2 - 4.0 * n4[6]))
+    t0, p0 = T0 - 273.15, 1.0e6 * be0 ** 4
+    if not (100.0 < t0 < 250.0 and 0.1e6 < p0 < 5e6): raise HarnessError('singular saturation states misplaced: %r %r' % (t0, p0))
+    for dlt in (0.0, 1e-13, 1e-12, 1e-11, 1e-10, 1e-9, 1e-8, 1e-7, 1e-6, 1e-5, 1e-4):
+        for s in ((1,) if dlt == 0 else (1, -1)):
+            sat_ts.append(t0 + s * dlt * 100.0)
+            out.append({'k': 'tsat', 'p': p0 * (1 + s * dlt)})
+            out.append({'k': 'tsat', 'p': ref.psat(T0 + s * dlt * 100.0)})
+            out.append({'k': 'sat', 't': ref.tsat(p0 * (1 + s * dlt)) - 273.15})
     for t in sat_ts:
         out.append({'k': 'sat', 't': t})
     p_lo, p_hi = psat_c(TMIN_C), 22.064e6
